@@ -38,9 +38,14 @@ def case(draw):
         opts['max_iters'] = draw(st.one_of(st.integers(1, 6), st.integers(1, 6), st.integers(7, 60),
                                            st.sampled_from([200, 1000])))
     energy = draw(st.sampled_from([None, None, None, 10, 50, 80]))
+    # the far ends of the finite range: squares overflow (1e200) or underflow to zero (1e-200), so the SD metric is not
+    # a number and can never be below its threshold - the extraction has to run into its limit and say so
+    ampl = draw(st.sampled_from([None] * 7 + [1e200, 1e-200]))
+    if ampl is not None:
+        energy = None
     return {'sig': sig, 'opts': opts, 'energy': energy,
             'interp': draw(st.sampled_from(['splrep', 'pchip', 'mono_pchip'])),
-            'pad': draw(st.integers(1, 5))}
+            'pad': draw(st.integers(1, 5)), 'ampl': ampl}
 
 
 @st.composite
@@ -63,6 +68,10 @@ def oracle(case, rec):
     import emd
     xt = gens.sig_of(case['sig'])           # possibly float32 / integer dtype
     x = xt.astype(float)
+    if case.get('ampl') is not None:
+        x = x * case['ampl']
+        xt = x
+        rec.cls('amplitude=%g' % case['ampl'])
     opts = dict(case['opts'])
     eo = {'interp_method': case['interp']}
     xo = {'pad_width': case['pad']}
